@@ -81,36 +81,50 @@ Theorem req_transducer : forall W, rq_w_ok W -> forall c0 ins, rq_canon c0 ->
 Proof. exact req_transducer_thm. Qed.
 
 (* ---- encoder ---- *)
+(* resp_min_size (Model/Cmd.v) is a probe of the regenerated encoder: the smallest size it handles *)
+Theorem resp_stream_probe : forall wvalid wv, 1 <= wvalid -> 7 <= wv -> forall c0 value k st r0 env,
+  rs_idle c0 -> resp_min_size <= k -> on st = true -> (Z.to_nat (2 * k + 4) <= ready_count env)%nat ->
+  let first := {| i_vin := value; i_size := k; i_start := st; i_ready := r0 |} in
+  exists pre post, env = pre ++ post /\
+    rs_xfers wvalid wv c0 (first :: pre) = response value (Z.to_nat k) /\
+    rs_idle (rs_iter wvalid wv c0 (first :: pre)).
+Proof. exact resp_stream_gen. Qed.
+Print Assumptions resp_stream_probe.
+
+(* <C20-F1> *)
 (* a request (start_resp high in an idle cycle, value on vin, k >= 1 on size), then ANY environment stream (ready
    pacing arbitrary; vin/size/start_resp arbitrary, they are ignored while busy) with at least 2k+4 ready cycles:
    the stream splits at the return to idle, and up to there exactly '=' , the k hex digits MSB first, '!' were
-   transferred, one per valid&ready edge *)
+   transferred, one per valid&ready edge.  (k = 0 is finding C20-F1: resp_size0_refuted below.) *)
 Theorem resp_stream : forall wvalid wv, 1 <= wvalid -> 7 <= wv -> forall c0 value k st r0 env,
   rs_idle c0 -> 1 <= k -> on st = true -> (Z.to_nat (2 * k + 4) <= ready_count env)%nat ->
   let first := {| i_vin := value; i_size := k; i_start := st; i_ready := r0 |} in
   exists pre post, env = pre ++ post /\
     rs_xfers wvalid wv c0 (first :: pre) = response value (Z.to_nat k) /\
     rs_idle (rs_iter wvalid wv c0 (first :: pre)).
-Proof. exact resp_stream_thm. Qed.
+Proof. exact resp_stream_k. Qed.
 
 (* at every moment (no liveness assumption), as long as no new request arrives, what was transferred is a prefix *)
 Theorem resp_prefix : forall wvalid wv, 1 <= wvalid -> 7 <= wv -> forall c0 value k st r0 env,
   rs_idle c0 -> 1 <= k -> on st = true -> Forall (fun i => i_start i = 0) env ->
   let first := {| i_vin := value; i_size := k; i_start := st; i_ready := r0 |} in
   exists rest, rs_xfers wvalid wv c0 (first :: env) ++ rest = response value (Z.to_nat k).
-Proof. exact resp_prefix_thm. Qed.
+Proof. exact resp_prefix_k. Qed.
 
-(* idle stays idle and transfers nothing until start_resp *)
-Theorem resp_idle : forall wvalid wv c i, rs_idle c -> i_start i = 0 ->
-  rs_step wvalid wv c i = c /\ xfer (rs_o c) (i_ready i) = [].
-Proof. exact resp_idle_thm. Qed.
-
-(* ---- the guards are needed (witnesses by computation on the regenerated definitions) ---- *)
+(* the guard k >= 1 is needed on this tree (witness by computation on the regenerated definition) *)
 Theorem resp_size0_refuted :
   exists value env, forall rest,
     rs_xfers 1 8 rs_reset ({| i_vin := value; i_size := 0; i_start := 1; i_ready := 1 |} :: env) ++ rest <> response value 0.
 Proof. exact Cmds.resp_size0_refuted. Qed.
+Print Assumptions resp_size0_refuted.
+(* </C20-F1> *)
 
+(* idle stays idle and transfers nothing until start_resp *)
+Theorem resp_idle : forall wvalid wv c i, rs_idle c -> i_start i = 0 ->
+  rs_step wvalid wv c i = c /\ xfer (rs_o c) (i_ready i) = [].
+Proof. exact resp_idle_gen. Qed.
+
+(* ---- the guards are needed (witnesses by computation on the regenerated definitions) ---- *)
 Theorem req_without_handshake_refuted :
   exists cs gap,
     events (map rq_o (rq_run W0 rq_reset (pulse_inputs gap cs ++ repeat (0, 0) 20))) <> parse 3 32 2 0 cs /\
@@ -146,6 +160,5 @@ Print Assumptions req_transducer.
 Print Assumptions resp_stream.
 Print Assumptions resp_prefix.
 Print Assumptions resp_idle.
-Print Assumptions resp_size0_refuted.
 Print Assumptions req_without_handshake_refuted.
 Print Assumptions req_lowercase_refuted.
